@@ -1,5 +1,5 @@
 CONSTANTS
-  Variant = "right"
+  Variant = "ignored"
   MaxHostLen = 2
   MaxPortLen = 1
   MaxOtherLen = 1
